@@ -156,6 +156,15 @@ type rawHandler interface {
 	ServeRaw(w middleware.Transport, raw []byte, readTime time.Time) bool
 }
 
+// sourceGate is the optional contract of a handler that can say, from the
+// transport alone, whether the client behind it may be answered at all.
+// The engines consult it before a rejection they build themselves: those
+// leave ahead of the chain, where the access list never sees them. A
+// handler without it (test stubs) admits everybody.
+type sourceGate interface {
+	AdmitsSource(w middleware.Transport) bool
+}
+
 // inlineRawHandler is the optional fast-path contract: a handler that can
 // run a query on the transport reader without blocking, handing off what
 // needs a worker. Engines type-assert it once at construction and consult
